@@ -3,6 +3,7 @@ import re
 
 from . import common as C
 from . import rulecheck
+from . import lowering_gen
 
 META = {
     "title": "Luau-lowering rules preserve program behaviour",
@@ -10,21 +11,34 @@ META = {
     "design_ref": "DESIGN.md section 6 / C06",
     "technique": "Coq lemmas on local rewrites against the reference Lua semantics + whole-program "
                  "translation validation in the Coq reference interpreter",
-    "level_text": "Machine-checked local-equivalence lemmas (Coq) for the rewrites the lowering rules perform, stated against "
-                  "the fuel-indexed reference semantics; on every run, generated Luau programs are lowered by the real rules "
-                  "(on the tree and end to end through each generator) and original and output are executed in the Coq "
-                  "reference interpreter under both dialects and several oracle streams, any difference being the replay.",
+    "level_text": "Machine-checked local-equivalence theorems (Coq) for the rewrites the lowering rules perform, stated against "
+                  "the fuel-indexed reference semantics for every dialect, fuel, environment and store (same values, same "
+                  "store): if-expression => and/or chain incl. the fold over elseif branches (using C08's evaluate_sound), "
+                  "the boxed if-expression form for literal/local results (partial), floor division => math.floor, compound "
+                  "assignment on a local, Luau numbers, const, casts/instantiations/annotations/type declarations; two "
+                  "refutations with witnesses (order of evaluation of `x op= e`, duplicated interpolated-string key). The "
+                  "Gallina models of the rewrites and of the traversal are compared with the real rules on templates hitting "
+                  "every arm of their case splits on each run; and generated Luau programs are lowered by the real rules (on "
+                  "the tree and end to end through each generator) and original and output are executed in the Coq reference "
+                  "interpreter under both dialects and several oracle streams, any difference being the replay.",
     "level_note": "Trusted: Coq kernel + vm_compute; Lua/Sem.v (specification); harness dl-rules + astdump. The lifting of "
                   "local lemmas to whole programs is not proved (partial): whole-program equivalence is validated per run, "
                   "not for all programs.",
     "trusted_base": ["Coq 8.16.1 kernel, vm_compute", "Lua/Sem.v reference semantics + Lib/F64.v (specification)",
+                     "standard-library axioms via Flocq, inherited through C08's evaluate_sound by the two and/or theorems only: "
+                     "sig_not_dec, sig_forall_dec, functional_extensionality_dep, classic",
                      "harness/crates/rules (program generator) + astdump (AST printer)", "darklua's parser (to read programs)"],
-    "allowed_axioms": [],
+    "allowed_axioms": ["ClassicalDedekindReals.sig_not_dec", "ClassicalDedekindReals.sig_forall_dec",
+                       "FunctionalExtensionality.functional_extensionality_dep", "Classical_Prop.classic"],
     "rule": "seeded typed generator of observable Luau programs (compound assignment on locals/fields/indexes with effectful "
             "keys, continue in for/while/repeat, if-expressions, interpolated strings, //, typed locals, Luau numbers, "
             "metatables with observable metamethods) x lowering rule alone / all / random subset in random order; a case is "
             "non-trivial when the reference run gives a verdict (error-free, dialect-independent) and the rules changed the tree",
-    "assumptions": ["Lua/Sem.v is a faithful reference semantics on the modelled fragment"],
+    "assumptions": ["Lua/Sem.v is a faithful reference semantics on the modelled fragment",
+                    "the local theorems are not lifted to whole programs (validated per run instead)",
+                    "models leave out: shadowed math/string/tostring, user names __DARKLUA_VAR*, remove_continue, "
+                    "remove_interpolated_string's semantics (no local theorem), compound assignment on field/index targets "
+                    "(temporaries change closure environments and the order of __index calls)"],
 }
 
 def run(ctx):
@@ -32,6 +46,8 @@ def run(ctx):
     proofs_ok = C.proof_gate(ctx, ["Lua/RunCheck.vo", "Lua/KnownClasses.vo"])
     n = 400 if ctx.tier == "quick" else 6000
     rulecheck.run_profile(ctx, "c06", n, classify=None)
+    # the tie of the local lemmas' models (Model/Lowering.v, Model/Visit.v) to the Rust rules
+    lowering_gen.run_stream(ctx, ctx.prop)
     if not proofs_ok and not ctx.violations:
         failed = [n for n, ok, _ in ctx.obligations if not ok]
         ctx.violation("proof obligation no longer checks: " + "; ".join(failed), {"obligations": failed},
